@@ -446,9 +446,10 @@ def _compile_and_run_c(fragments, bits):
     for i, b in enumerate(bits):
         src.append(f'    bool {b} = (m >> {nb - 1 - i}) & 1;')
     for k, code in enumerate(fragments):
-        # latches the text assigns without declaring them itself
-        latches = sorted(set(re.findall(r'^\s*(latch_\w+)\s*=', code,
-                                        re.M)))
+        # temporaries the text assigns without declaring them itself
+        # (whatever they are called)
+        latches = sorted(set(re.findall(r'^\s*([A-Za-z_]\w*)\s*=(?!=)',
+                                        code, re.M)) - set(bits))
         src.append('    {')
         src.append('      OB out_bits; out_bits.n = 0;')
         if latches:
